@@ -8,6 +8,12 @@ import BvaProofs.Count
 import BvaProofs.Edit
 import BvaProofs.Carry
 import BvaProofs.Shift
+import BvaProofs.Conv
+import BvaProofs.Mul
+import BvaProofs.Splice
+import BvaProofs.Div
+import BvaProofs.Bytes
+import BvaProofs.Parse
 /-!
 # Assembly: invariants of operands and vectors, and discharge of the "fetch" hypotheses
 -/
@@ -187,5 +193,86 @@ theorem Bvd.rhsWords_lt (x : AnyBv) (hx : x.Inv) : x.abs.val < 2 ^ (64 * (Bvd.rh
   cases x with
   | d b => simp only [Bvd.rhsWords, AnyBv.len, Bvd.capW]; have := capW_mul_ge b.length; omega
   | f w b => simp only [Bvd.rhsWords, AnyBv.len, Raw.intLen]; omega
+
+end Bva
+
+namespace Bva
+
+theorem wok_le128_cases {W : Nat} (h : WOk W) (h128 : W ≤ 128) :
+    W = 8 ∨ W = 16 ∨ W = 32 ∨ W = 64 ∨ W = 128 := by
+  obtain ⟨k, rfl⟩ := h
+  match k with
+  | 0 => simp
+  | 1 => simp
+  | 2 => simp
+  | 3 => simp
+  | 4 => simp
+  | k + 5 =>
+    exfalso
+    have : 2 ^ 5 ≤ 2 ^ (k + 5) := Nat.pow_le_pow_right (by decide) (by omega)
+    omega
+
+/-- invariant of an operator right-hand side: a vector with its invariant, or a native integer of one of the
+six unsigned types with a value in range -/
+def Api.Rhs.Inv : Api.Rhs → Prop
+  | .vec v => v.Inv
+  | .uint W x => WOk W ∧ W ≤ 128 ∧ x < 2 ^ W
+
+/-- what the right-hand side denotes at L0 -/
+def Api.Rhs.spec : Api.Rhs → BV
+  | .vec v => v.abs
+  | .uint W x => ⟨W, x⟩
+
+/-- the temporary vector the integer forms build denotes the integer, and satisfies the operand invariant -/
+theorem Api.liftUInt_ok (subject : Vec) (W x : Nat) (hW : WOk W) (h128 : W ≤ 128) (hx : x < 2 ^ W) :
+    (Api.liftUInt subject W x).Inv ∧ (Api.liftUInt subject W x).abs = ⟨W, x⟩ := by
+  have hfix : (AnyBv.f 64 (unwrapD (Bvf.fromUInt 64 2 W x))).Inv ∧
+      (AnyBv.f 64 (unwrapD (Bvf.fromUInt 64 2 W x))).abs = ⟨W, x⟩ := by
+    have hs := (Bvf.fromUInt_spec (w := 64) 2 W x (by decide) (by decide) hx).2
+    have hnb : ¬ (2 * 64 < BV.natBits x) := by
+      have : BV.natBits x ≤ W := (BV.natBits_le_iff x W).mpr hx
+      omega
+    obtain ⟨r, hr, hinv, habs, _⟩ := hs hnb
+    rw [hr]
+    simp only [unwrapD, AnyBv.Inv, AnyBv.abs]
+    refine ⟨⟨wok64, hinv⟩, ?_⟩
+    rw [habs]
+    have : min W (2 * 64) = W := by omega
+    rw [this]
+  have hdyn : (AnyBv.d (Bvd.fromUInt W x)).Inv ∧ (AnyBv.d (Bvd.fromUInt W x)).abs = ⟨W, x⟩ := by
+    have hw : W ≤ 64 ∨ 64 ∣ W := by
+      rcases wok_le128_cases hW h128 with h | h | h | h | h <;> subst h
+      · left; decide
+      · left; decide
+      · left; decide
+      · left; decide
+      · right; exact ⟨2, rfl⟩
+    exact Bvd.fromUInt_refines W x hw hx
+  cases subject with
+  | f w s => exact hfix
+  | d s => exact hdyn
+  | a b => cases b with
+    | fixed s => exact hfix
+    | dynamic s => exact hdyn
+
+theorem Api.Rhs.any_ok (subject : Vec) (x : Api.Rhs) (hx : x.Inv) :
+    (x.any subject).Inv ∧ (x.any subject).abs = x.spec := by
+  cases x with
+  | vec v => exact ⟨Vec.Inv.any hx, Vec.any_abs v⟩
+  | uint W n => exact Api.liftUInt_ok subject W n hx.1 hx.2.1 hx.2.2
+
+/-- all fetched words of an operand at width `wJ`, as a value -/
+theorem AnyBv.valF_getInt_mod (x : AnyBv) (hx : x.Inv) {wJ : Nat} (hJ : WOk wJ) (n : Nat) :
+    valF (fun j => (x.getInt wJ j).getD 0#wJ) n = x.abs.val % 2 ^ (wJ * n) := by
+  apply valF_eq_of_bits hJ.pos
+  · exact Nat.mod_lt _ (Nat.two_pow_pos _)
+  · intro i j hi hj
+    rw [AnyBv.getInt_bits x hx hJ i j hj, Nat.testBit_mod_two_pow]
+    have : i * wJ + j < wJ * n := by
+      calc i * wJ + j < i * wJ + wJ := by omega
+        _ = (i + 1) * wJ := by rw [Nat.add_mul, Nat.one_mul]
+        _ ≤ n * wJ := Nat.mul_le_mul_right wJ hi
+        _ = wJ * n := Nat.mul_comm _ _
+    simp [this, BV.bit]
 
 end Bva
